@@ -673,6 +673,27 @@ def main():
     from bardolph.controller.script_job import ScriptJob
     rejected_texts = [t for _n, t in RULES] + ['on all hue', 'on all set all break', 'on all assign 5 5',
                                                 'on all define m 1 assign m 2', 'on all hue {1 +', 'on all repeat 2 begin off all']
+    # the other way round: a job whose previous text was REJECTED in the middle of a loop, a
+    # routine, a matrix block or an expression is given each rule-breaking text; the rule must be
+    # enforced as on a new job
+    poisons = ['repeat 2 begin nosuch end', 'define f begin repeat 3 begin hue nosuch end end',
+               'set "Candle" begin stage row 0 nosuch', 'repeat all as x begin repeat 2 begin print {x +',
+               'define g with a begin if {a > 0} begin return nosuch end end', 'define m 5 define r begin nosuch']
+    stats['rules_after_failed_compile'] = 0
+    for name, rule_text in RULES:
+        if len(rule_text) > 400:
+            continue
+        for poison in poisons:
+            job = ScriptJob()
+            job.load_string(poison)
+            job.load_string(rule_text)
+            stats['rules_after_failed_compile'] += 1
+            chk.count()
+            if job.program is not None:
+                chk.violation('documented-rule-not-enforced:' + name + ':after-failed-compile',
+                              'text breaking the rule "{}" is accepted by a job whose previous text '
+                              '{!r} was rejected'.format(name, poison),
+                              {'first': poison, 'text': rule_text})
     stats['reused_jobs'] = 0
     for k, bad_text in enumerate(rejected_texts):
         for via in ('string', 'file'):
